@@ -23,7 +23,7 @@ NEG = [("wrap", "NoR6"), ("div0", "NoR3"), ("sumovf", "NoR3"), ("bmunits", "NoR7
 FN = "reass_hlp_handle_frag"
 
 def model(ctx):
-    jobs = [("MC_Reass.cfg", None), ("MC_Reass_nobm.cfg", None), ("MC_Reass_vac.cfg", "NeverComplete")]
+    jobs = [("MC_Reass.cfg", None), ("MC_Reass_nobm.cfg", None), ("MC_Reass_edge.cfg", None), ("MC_Reass_vac.cfg", "NeverComplete")]
     jobs += [("MC_Reass_%s.cfg" % d, inv) for d, inv in NEG]
     if not ctx.quick:
         jobs += [("MC_Reass_bm2.cfg", None), ("MC_Reass_big.cfg", None), ("MC_Reass_bignobm.cfg", None)]
